@@ -1,4 +1,6 @@
 """C02 — every operator call receives geometrically consistent arguments."""
+import collections
+
 import core
 import gen
 from props import corefam
@@ -112,7 +114,121 @@ def evaluate(res):
     return corr, orc
 
 
+def _tsm_predicates(c, lines):
+    """per-call clauses for the target/source executors: P2M sees the source particles, L2P the target particles"""
+    cS, cT = dict(c, parts=c["src"]), dict(c, parts=c["tgt"])
+    p2m = [ln for ln in lines if ln.startswith("C P2M ")]
+    rest = [ln for ln in lines if ln.startswith("C ") and not ln.startswith("C P2M ")]
+    return call_predicates(cS, p2m) + call_predicates(cT, rest)
+
+
+def _family_cases(tier, seed):
+    import tsm
+    n = 70 if tier == "quick" else 900
+    omp_cases, tsm_cases = [], []
+    for k in range(n):
+        r = gen.rng(seed, "C02omp", k)
+        D, H, periodic, kind, parts, bs, mode = corefam.random_tree_params(r, corefam.ALL_CONFIGS, max_n=48, big=(tier != "quick"))
+        upper = r.choice([2, 1, 0]) if not periodic else r.choice([1, 0, 2])
+        body = ["exec omp flags=63 upper=%d sched=%d seed=%d workers=%d" % (upper, r.choice([0, 1, 2, 2, 3]), r.randrange(1, 10 ** 6), r.choice([1, 2, 4, 16]))]
+        omp_cases.append(corefam.make_case("c02o-%d" % k, D, H, periodic, parts, bs, mode, body, {"kind": kind, "upper": upper, "family": "omp"}))
+    for k in range(n):
+        r = gen.rng(seed, "C02tsm", k)
+        D, periodic = r.choice(corefam.ALL_CONFIGS)
+        H = gen.pick_height(r, D, big=(tier != "quick"))
+        if periodic and H < 2:
+            H = 2
+        kind, src, tgt = tsm.gen_sets(r, D, H)
+        bs = gen.pick_bs(r, max(len(set(src)), len(set(tgt))))
+        mode = r.randrange(2)
+        upper = r.choice([2, 2, 1, 0, 3]) if not periodic else r.choice([1, 1, 0, 2])
+        body = ["mark seq", "exec tsm flags=63 upper=%d" % upper, "mark s0", "buildtsm bs=%d mode=%d" % (bs, mode),
+                "exec omptsm flags=63 upper=%d sched=%d seed=%d workers=%d" % (upper, r.choice([0, 1, 2, 2, 3]), r.randrange(1, 10 ** 6), r.choice([1, 2, 4, 16]))]
+        tsm_cases.append(tsm.make_case("c02t-%d" % k, D, H, periodic, src, tgt, bs, mode, body, {"kind": kind, "upper": upper, "family": "tsm"}))
+    return omp_cases, tsm_cases
+
+
+def other_executors(rep, tier, seed, replay=None):
+    """C02 quantifies over all shipped executors: the same per-call clauses (and the recording kernel's own consistency
+    lines) on the OpenMP executor, on the sequential and OpenMP target/source executors, and on the periodic top tree"""
+    import tsm
+    from props import C10
+    fam = collections.Counter()
+    if replay:
+        text = open(replay).read()
+        omp_cases, tsm_cases, top = [], [], False
+        if "partsS" in text and "exec periodic" not in text:
+            c = tsm.parse_replay(replay)
+            c["meta"]["family"] = "tsm"
+            tsm_cases = [c]
+        elif "exec periodic" in text:
+            top = True
+        else:
+            c = corefam.parse_replay(replay)
+            c["meta"] = dict(c.get("meta") or {}, family="omp")
+            omp_cases = [c]
+    else:
+        omp_cases, tsm_cases = _family_cases(tier, seed)
+        top = True
+    jobs = []
+    if omp_cases:
+        b, _ = core.build_harnesses(corefam.ALL_CONFIGS, omp=True)
+        jobs.append((omp_cases, b, lambda c, lines: call_predicates(c, lines)))
+    if tsm_cases:
+        b, _ = tsm.build(corefam.ALL_CONFIGS)
+        jobs.append((tsm_cases, b, _tsm_predicates))
+    for cases, binaries, pred in jobs:
+        for res in core.run_cases(cases, binaries):
+            c = res.case
+            text = "\n".join(c["lines"]) + "\n"
+            fam[c["meta"].get("family", "?")] += 1
+            if res.crash is not None:
+                rep.violation("crash:" + corefam.crash_signature(res.crash), "# " + res.crash.replace("\n", "\n# ") + "\n" + text, True,
+                              "the real library aborted on case %s: %s" % (c["name"], corefam.crash_signature(res.crash)))
+                continue
+            if res.cpp is None:
+                continue
+            orc = pred(c, res.cpp) + [("C02:X", x) for x in core.section(res.cpp, "X ")]
+            for sig, msg in orc[:4]:
+                rep.violation(sig, "# property oracle failed on the implementation's output (%s executor): %s\n%s" % (c["meta"].get("family"), msg, text), True,
+                              "case %s (%s executor): %s" % (c["name"], c["meta"].get("family"), msg))
+    if top:
+        configs = [(1, 1), (2, 1), (3, 1), (4, 1)]
+        binaries, _ = core.build_harnesses(configs, omp=True, wide=True)
+        if binaries:
+            if replay:
+                c = corefam.parse_replay(replay)
+                ex = [ln for ln in c["lines"] if ln.startswith("exec periodic")][0].split()
+                c["meta"] = {"n": int([t for t in ex if t.startswith("n=")][0][2:]), "omp": "omp=1" in ex, "kind": "replay"}
+                cases = [c]
+            else:
+                cases = C10.gen_cases(tier, seed, sorted(binaries))[: (40 if tier == "quick" else 400)]
+            for res in core.run_cases(cases, binaries, chunk=8):
+                c = res.case
+                text = "\n".join(c["lines"]) + "\n"
+                fam["toptree"] += 1
+                if res.crash is not None:
+                    rep.violation("crash:" + corefam.crash_signature(res.crash), "# " + res.crash.replace("\n", "\n# ") + "\n" + text, True,
+                                  "the real library aborted on case %s: %s" % (c["name"], corefam.crash_signature(res.crash)))
+                    continue
+                if res.cpp is None or res.lean is None:
+                    continue
+                _, orc = C10.evaluate(res)
+                for sig, msg in orc[:4]:
+                    rep.violation("C02:toptree:" + sig, "# per-call clause failed on the periodic top tree's calls: %s\n%s" % (msg, text), True,
+                                  "case %s (periodic top tree): %s" % (c["name"], msg))
+    rep.cov["other_executor_cases"] = dict(fam)
+    rep.cov["evaluations"] = rep.cov.get("evaluations", 0) + sum(fam.values())
+
+
 def run(rep, tier, seed, replay, proof_ok, proof_msg):
+    if replay:
+        text = open(replay).read()
+        if "partsS" in text or "exec omp" in text or "exec periodic" in text:
+            other_executors(rep, tier, seed, replay)
+            return
     corefam.standard_run(rep, tier, seed, replay, proof_ok, proof_msg, gen_cases, evaluate)
-    rep.assumptions += ["sequential executor here; OpenMP in C03, target/source in C09, periodic top tree in C10 use the same per-call predicates",
+    if not replay:
+        other_executors(rep, tier, seed)
+    rep.assumptions += ["sequential, OpenMP (mock runtime), target/source (sequential and OpenMP) and periodic-top-tree executors; Specx / StarPU executors are not run",
                         "Hilbert ordering excluded (known finding F-H)"]
